@@ -5,6 +5,7 @@ import (
 	"bytes"
 	"encoding/json"
 	"fmt"
+	"hash/fnv"
 	"os"
 	"strings"
 	"sync"
@@ -19,6 +20,7 @@ import (
 	"verif/internal/cmpx"
 	"verif/internal/gx"
 	"verif/internal/ref"
+	"verif/internal/vet"
 	"verif/internal/vrt"
 )
 
@@ -78,6 +80,28 @@ var frontEnds = []frontEnd{
 		err := t.Parse(d, r)
 		return nil, r.Events, err
 	}},
+	// the same through instances that have a history of earlier calls (internal/vet)
+	{"oj.Parser(veteran).Parse", false, func(d []byte) (any, []cmpx.Event, error) { v, err := vet.OjParser().Parse(d); return v, nil, err }},
+	{"oj.Parser(veteran).ParseReader/1", false, func(d []byte) (any, []cmpx.Event, error) {
+		v, err := vet.OjParser().ParseReader(iotest.OneByteReader(bytes.NewReader(d)))
+		return v, nil, err
+	}},
+	{"gen.Parser(veteran).Parse", false, func(d []byte) (any, []cmpx.Event, error) { v, err := vet.GenParser().Parse(d); return v, nil, err }},
+	{"gen.Parser(veteran).ParseReader/1", false, func(d []byte) (any, []cmpx.Event, error) {
+		v, err := vet.GenParser().ParseReader(iotest.OneByteReader(bytes.NewReader(d)))
+		return v, nil, err
+	}},
+	{"sen.Parser(veteran).Parse", false, func(d []byte) (any, []cmpx.Event, error) { v, err := vet.SenParser().Parse(d); return v, nil, err }},
+	{"oj.Tokenizer(veteran).Load/1", true, func(d []byte) (any, []cmpx.Event, error) {
+		r := &cmpx.Recorder{}
+		err := vet.OjTokenizer().Load(iotest.OneByteReader(bytes.NewReader(d)), r)
+		return nil, r.Events, err
+	}},
+	{"sen.Tokenizer(veteran).Parse", true, func(d []byte) (any, []cmpx.Event, error) {
+		r := &cmpx.Recorder{}
+		err := vet.SenTokenizer().Parse(d, r)
+		return nil, r.Events, err
+	}},
 }
 
 func Run(cs Case, c *vrt.Ctx) {
@@ -98,7 +122,17 @@ func Run(cs Case, c *vrt.Ctx) {
 		c.NonTrivial()
 	}
 	c.Sample(map[string]any{"text": string(cs.Text)})
+	// the veteran instances cost a history of calls each: every fourth text (by content)
+	h := fnv.New32a()
+	_, _ = h.Write(cs.Text)
+	veterans := h.Sum32()%4 == 0
+	if veterans {
+		c.Class("veteran-instances")
+	}
 	for _, fe := range frontEnds {
+		if !veterans && strings.Contains(fe.name, "(veteran)") {
+			continue
+		}
 		var v any
 		var evs []cmpx.Event
 		var perr error
